@@ -52,7 +52,8 @@ def spec_written(ctx, name, filelists, rnd):
     t0 = time.time()
     ins = []
     for k, fl in enumerate(filelists):
-        lay = {"blank": rnd.choice([0, 1, 128, 300]), "leader": rnd.choice([1, 2, 128, 255, 600]), "gap": rnd.choice([0, 0, 1, 128])}
+        lay = {"blank": rnd.choice([0, 1, 128, 300]), "leader": rnd.choice([1, 2, 128, 255, 600]), "gap": rnd.choice([0, 0, 1, 128]),
+               "chunk": rnd.choice([255, 255, 255, 128, 100, 254, 17])}       # blocks of at most 255 bytes: also recorders that cut smaller ones
         ins.append({"id": k, "files": [ct.jfile(f) for f in fl], "lay": lay})
     out, st = tlc.bulk("Gen_Tape", ins, nproc=6, min_chunk=40, heap="4g")
     recs = []
